@@ -6,7 +6,7 @@ CONFIG = {
     "required_theorems": [],
     "violation_kinds": ["C19:"],
     "harnesses": [
-        {"cmd": "nfs41", "shared": True, "cases_quick": 200, "cases_thorough": 6000, "shards_quick": 8, "shards_thorough": 32},
+        {"cmd": "nfs41", "shared": True, "cases_quick": 200, "cases_thorough": 2000, "shards_quick": 8, "shards_thorough": 32},
     ],
     "trusted_base": [
         "hand-written model coq/theories/Nfs41/Model.v of the state accounting of nfs41_program.go + opened_files_pool.go (one event = one critical section; VirtualClose calls of leavesToClose are merged into the section that collected them), byte-range lock tables = VF.LockSet.Model; tied to the code by harness/cmd/nfs41 (replies, leaf open/close counters, VerifDump41 state dump after every step)",
